@@ -744,6 +744,22 @@ package badger
 //@   assert[stored-in-this-txn] before call SetEntry : arg0 == txn && arg1 == ret(NewEntry#1)
 //@   assert[starts-at-zero] before call PutUint64 : called(Get#1) && ret1(Get#1) == ErrKeyNotFound ==> next == 0
 
+// Release gives back the unused part of the lease: only if the stored value is still this
+// object's lease is it replaced by the next unused number, under the sequence's key; afterwards
+// nothing can be handed out without a new lease.
+//@ func (*Sequence).Release.$1
+//@   props C30
+//@   light
+//@   assert[read-own-key] before call Get : arg0 == txn && arg1 == seq.key
+//@   assert[only-own-lease-given-back] before call PutUint64 : num == seq.leased && arg2 == seq.next
+//@   assert[stored-under-own-key] before call NewEntry : arg0 == seq.key && len(arg1) == 8
+
+//@ func (*Sequence).Release
+//@   props C30
+//@   light
+//@   assert[under-lock] before call Update : held(seq.lock) && arg0 == seq.db
+//@   assert[nothing-left-to-hand-out] before return : result == nil ==> seq.leased == seq.next
+
 //@ func (*Sequence).Next
 //@   props C30
 //@   requires seq.db != nil
@@ -1221,6 +1237,14 @@ package badger
 //@   assert[same-key-only] before call NewKV : ret(Equal#1)
 //@   assert[marker-ends-the-list] before call Next : !ret(IsDeletedOrExpired#2) && !ret(DiscardEarlierVersions#1)
 //@   assert[discard-marker-just-below] before call append#2 : called(DiscardEarlierVersions#1) && ret(DiscardEarlierVersions#1)
+
+// Send is called from one place only, with the batch that was just filled; an empty batch is
+// not sent; its error stops the stream.
+//@ func (*Stream).streamKVs.sendBatch
+//@   props C25
+//@   light
+//@   assert[non-empty-only] before call Send : ret(LenNoPadding#1) != 0 && arg0 == batch
+//@   assert[send-error-returned] before return#2 : result == ret(Send#1) && result != nil
 
 // ---- streams (C25): one snapshot per run ----
 
